@@ -175,8 +175,8 @@ def run_impl(lines, binary=None, timeout=1800, nproc=4):
             elif p.returncode not in (0, 75, 77) and len(got) < len(todo):
                 # the process was killed by a signal (or aborted) while running the case after the answered ones: that case gets a crash
                 # record [3 0 128+signal] as its whole trace and the remaining cases go to a fresh process
-                sig = -p.returncode if p.returncode < 0 else p.returncode
-                rows.append([3, 0, 128 + (sig % 128)])
+                # (killed by signal s: 128 + s; exited by itself with status c - 101 is a Rust panic outside any catch_unwind, 134 an abort -: 1000 + c)
+                rows.append([3, 0, 128 + ((-p.returncode) % 128)] if p.returncode < 0 else [3, 0, 1000 + p.returncode])
                 # keep what the process said for the diagnosis (the crash record itself is what the checks judge)
                 try:
                     q = subprocess.run([binary], input=todo[len(got)] + "\n", stdout=subprocess.PIPE, stderr=subprocess.PIPE, text=True, timeout=120,
